@@ -56,6 +56,12 @@ Sensitivity (quick tier, seed 1, scratch copy of /repo/tornado, one mutant at a 
   M6 get(): Connection check by substring ("upgradex" passes)                  -> C17.invalid_upgrade_completed (connection)
   M7 check_origin: ports ignored on both sides                                 -> C17.invalid_upgrade_completed (origin)
   M8 _accept_connection: first offered subprotocol echoed when handler chose none -> C17.subprotocol_echo_unselected
+Added after independent mutation testing found a gap:
+  M9 get(): Connection tokenised with `.lower().split(", ")` instead of split(",") + strip  -> C17.valid_upgrade_not_completed
+     ("keep-alive,Upgrade"; also caught by the deterministic part `connection_grid`).  The Connection factor now
+     contains the valid list spellings of RFC 9110 5.6.1 / 5.3 as must-accept values (no space, extra spaces, HTAB, either
+     order, empty list elements, and TWO separate Connection field lines) with about a third of the weight, and
+     `connection_grid` enumerates every spelling with all other factors canonical.
 """
 import base64
 
@@ -102,7 +108,12 @@ def canon_or(canon, others, p=5):
 
 
 upgrade_s = canon_or("websocket", ["WebSocket", "WEBSOCKET", None, "websocket2", "h2c, websocket", "", "web socket"])
-connection_s = canon_or("Upgrade", ["upgrade", "keep-alive, Upgrade", "Upgrade,keep-alive", None, "upgradex", "keep-alive", "close", "xupgrade, y"])
+# Connection is a list field (RFC 9110 5.6.1: elements separated by commas with optional whitespace, empty
+# elements allowed; 5.3: several field lines combine into one list).  "||" below = two separate field lines.
+CONNECTION_VALID_LISTS = ["upgrade", "UPGRADE", "keep-alive, Upgrade", "keep-alive,Upgrade", "keep-alive ,  Upgrade", "Upgrade,keep-alive",
+                          "Upgrade, keep-alive", "keep-alive\t,\tUpgrade", "keep-alive||Upgrade", "Upgrade||keep-alive", ", Upgrade", "Upgrade ,"]
+CONNECTION_BAD = [None, "upgradex", "keep-alive", "close", "xupgrade, y", "keep-alive||close", "up grade"]
+connection_s = st.sampled_from(["Upgrade"] * 24 + CONNECTION_VALID_LISTS + CONNECTION_BAD)
 key_s = st.sampled_from(list(range(8))).flatmap(lambda i: (
     st.tuples(st.just("raw"), st.sampled_from([None, "", "abc", "AAAA", "x" * 24, "dGhlIHNhbXBsZSBub25jZQ==extra", "not base64!*"]))
     if i == 0 else st.tuples(st.just("b64"), st.binary(min_size=16, max_size=16))))
@@ -287,8 +298,12 @@ def run_server_case(ctx, case):
     if up is None or up.strip().lower() != "websocket":
         (either if up is not None and "websocket" in [t.strip().lower() for t in up.split(",")] else bad).append("upgrade")
     co = case["connection"]
-    if co is None or "upgrade" not in [t.strip().lower() for t in co.split(",")]:
+    if co is None or "upgrade" not in [t.strip(" \t").lower() for line in co.split("||") for t in line.split(",")]:
         bad.append("connection")
+    elif co != "Upgrade":
+        labels.add("connection_list_spelling")
+        if "||" in co:
+            labels.add("connection_two_field_lines")
     if key is None or key == "":
         bad.append("key")
     elif not wsref.valid_key(key):
@@ -321,7 +336,8 @@ def run_server_case(ctx, case):
     for nm, val in (("Host", host), ("Upgrade", up), ("Connection", co), ("Key", key), ("Version", wv),
                     ("Protocol", case["protocols"]), ("Ext", case["ext"])):
         if val is not None:
-            lines.append("%s: %s" % (names[nm], val))
+            for one in (val.split("||") if nm == "Connection" else [val]):
+                lines.append("%s: %s" % (names[nm], one))
     if origin is not None:
         lines.append("%s: %s" % (ohdr, origin))
     if case["method"] == "POST":
@@ -677,10 +693,23 @@ def run_client_case(ctx, case):
     ctx.note(case, labels, bool(reasons_bad or reasons_either or case["ext"] or case["protocol"]))
 
 
-PARTS = {"server": run_server_case, "client": run_client_case}
+def connection_grid():
+    """Deterministic: every Connection spelling with all other factors canonical (valid lists must give 101,
+    the others must not), with both header-name spellings and with/without an Origin equal to Host."""
+    base = {"method": "GET", "http": "HTTP/1.1", "upgrade": "websocket", "key": ("b64", bytes(range(16))), "wsver": "13",
+            "host": "example.com:8080", "origin": None, "origin_header": "Origin", "protocols": None, "policy": "none", "ext": None,
+            "compression": None, "segs": []}
+    for co in ["Upgrade"] + CONNECTION_VALID_LISTS + CONNECTION_BAD:
+        for lower in (False, True):
+            for origin in (None, ("rel", "http", "", "same", "same", "")):
+                yield dict(base, connection=co, lower_names=lower, origin=origin)
+
+
+PARTS = {"server": run_server_case, "client": run_client_case, "connection_grid": run_server_case}
 
 
 def main(ctx):
     ctx.run_replays(PARTS)
+    ctx.enumerate(connection_grid(), run_server_case, name="connection_grid")
     ctx.explore(server_case_s, run_server_case, ctx.n(3000, 48000), name="server")
     ctx.explore(client_case_s, run_client_case, ctx.n(1200, 16000), name="client")
